@@ -28,6 +28,9 @@ func checkC08(c *Ctx) {
 	r084(c, "R08.4 error-page-nesting")
 	r085(c)
 	r086(c)
+	// the path compared with the health-check path is the one the client sent: nothing rewrites it first (shared with C13)
+	c.floor("R08.7 request-unaltered-before-the-gate", 10)
+	r131touches(c, "R08.7 request-unaltered-before-the-gate")
 }
 
 // R08.6 resume can restore forwarding only if the drain performed by stop (and pause) left the targets usable.
